@@ -168,6 +168,8 @@ pub fn mpqs(n: Uint, k: u32, prefs: &Preferences, tpool: Option<&rayon::ThreadPo
         let maxblocks = if n.bits() < 256 { 100_000 } else { 1_000_000 };
         pool.install(|| {
             (0..maxblocks).into_par_iter().for_each(|blkno| {
+                #[cfg(yamaquasi_verif)]
+                crate::verif_sched::yield_point(7);
                 if s.finished() || prefs.abort() {
                     return;
                 }
@@ -681,11 +683,17 @@ impl SieveMPQS<'_> {
     fn finished(&self) -> bool {
         // The relaxed memory ordering is fine, it's okay to do
         // some extra work if threads don't fully synchronize.
+        #[cfg(yamaquasi_verif)]
+        crate::verif_sched::yield_point(8);
         if self.done.load(Ordering::Relaxed) {
             return true;
         }
+        #[cfg(yamaquasi_verif)]
+        crate::verif_sched::yield_point(9);
         let relcount = { self.rels.read().unwrap().len() };
         if relcount >= self.target.load(Ordering::Relaxed) {
+            #[cfg(yamaquasi_verif)]
+            crate::verif_sched::yield_point(10);
             let gap = { self.rels.read().unwrap().gap(self.fbase) };
             if gap == 0 {
                 if self.prefs.verbose(Verbosity::Info) {
@@ -758,6 +766,8 @@ fn sieve_block_poly(s: &SieveMPQS, pol: &Poly, roots: [&[u32]; 2], st: &mut siev
             cyclelen: 1,
         };
         debug_assert!(rel.verify(n));
+        #[cfg(yamaquasi_verif)]
+        crate::verif_sched::yield_point(11);
         s.rels.write().unwrap().add(rel, pq);
     }
 }
